@@ -190,7 +190,7 @@ def build(x):
                     lemma_count_bound(rep, cores, hh);
                     lemma_total_mono(cores, hh + 1, remote.hosts@.len() as int);
                     assert(cores[hh] == remote.hosts@[hh].num_cores);
-                    assert(nn == count(rep, cores, hh));
+                    assert(nn == count(rep, cores, hh));   // #obl:placement.replicas_given_to_this_host
                     assert(!reps0.contains_key(hh as u64));
                     assert(base + nn == sp_assigned(rep, cores, hh + 1));
                     assert(base + nn < 0x4000_0001_0000_0002);
